@@ -189,11 +189,11 @@ def call_graph(asm):
     return g
 
 
-def build(repo=REPO, force=False, canary=None, verify_only=None, quiet=False, extra_args=()):
+def build(repo=REPO, force=False, canary=None, verify_only=None, quiet=False, extra_args=(), verify_fn=None):
     """Assemble + verus.  Returns result dict (JSON-serialisable)."""
     spec_hash = gen.tree_hash(repo, extra_dirs=[SPEC, HERE])
     key = spec_hash + ('' if not canary else '-canary-' + re.sub(r'\W', '_', canary)) + \
-        ('' if not verify_only else '-only-' + re.sub(r'\W', '_', '-'.join(verify_only)))
+        ('' if not verify_only else '-only-' + re.sub(r'\W', '_', '-'.join(verify_only))) + ('' if not verify_fn else '-fn-' + re.sub(r'\W', '_', verify_fn))
     os.makedirs(CACHE, exist_ok=True); os.makedirs(GEN, exist_ok=True)
     cpath = os.path.join(CACHE, key + '.json')
     lock = open(os.path.join(CACHE, key + '.lock'), 'w')
@@ -216,6 +216,8 @@ def build(repo=REPO, force=False, canary=None, verify_only=None, quiet=False, ex
         args = ['--multiple-errors', '30', '--num-threads', '16', '--rlimit', RLIMIT] + list(extra_args)
         if verify_only:
             for m in verify_only: args += ['--verify-only-module', m]
+        if verify_fn:
+            args += ['--verify-function', verify_fn]
         v = vrun.run_verus(gpath, args)
         fails, tool = classify(v['diags'], asm)
         fstats = {}
